@@ -33,7 +33,7 @@ fn off_add_ns(x: Off, d: u32) -> Off {
 }
 const STEP: u32 = 1 << 14;
 
-// @verif prop=C07,C08,C09 tier=quick timeout=600 mem=6
+// @verif prop=C07,C08,C09 tier=quick timeout=1200 mem=6
 // @enc Time::new_floor Time::new_ceil Time::instant Time::inc
 // @sym instant = t0 + (secs < 2^40, nanos < 10^9), all values; t0 fixed base instant
 // @bound secs < 2^40 (about 34000 years); single conversion
@@ -63,7 +63,7 @@ fn a_time_rounding() {
     kani::cover!(f == c, "exactly on a tick");
 }
 
-// @verif prop=C07,C08 tier=quick timeout=600 mem=6
+// @verif prop=C07,C08 tier=quick timeout=1200 mem=6
 // @enc Time::new_floor Time::new_ceil
 // @sym an instant up to 1000 s BEFORE t0
 // @bound one conversion
@@ -78,7 +78,7 @@ fn a_time_before_t0() {
     kani::cover!(before == 0, "sub-second before t0");
 }
 
-// @verif prop=C07,C08,C19 tier=quick timeout=600 mem=6
+// @verif prop=C07,C08,C19 tier=quick timeout=1200 mem=6
 // @enc Time::new_floor Time::new_ceil
 // @sym two instants x <= y (secs < 2^40, any nanos)
 // @bound secs < 2^40
@@ -104,7 +104,7 @@ fn a_time_monotone() {
     kani::cover!(s1 != s2 && n2 < n1, "different seconds");
 }
 
-// @verif prop=C07 tier=quick timeout=600 mem=6
+// @verif prop=C07 tier=quick timeout=1200 mem=6
 // @enc Time::new_floor Time::new_ceil
 // @sym expiry x and current time y, any order (secs < 2^40, any nanos)
 // @bound secs < 2^40
@@ -121,7 +121,7 @@ fn a_time_no_early() {
     kani::cover!(Time::new_floor(y, t0) == Time::new_ceil(x, t0), "fires exactly at the tick");
 }
 
-// @verif prop=C07,C08,C09 tier=quick timeout=600 mem=6
+// @verif prop=C07,C08,C09 tier=quick timeout=1200 mem=6
 // @enc Time::wt WrapTime::time WrapTime::cmp TimerKey::cmp
 // @sym base, t: any u64 ticks with base <= t < base + 2^32; a, b any ticks within 2^31 of each other
 // @bound full 64-bit tick values (below 2^63)
@@ -146,7 +146,7 @@ fn a_wraptime() {
     kani::cover!((a as u32) < (b as u32) && a > b, "comparison across the 32-bit wrap");
 }
 
-// @verif prop=C07,C08,C09 tier=quick timeout=900 mem=8
+// @verif prop=C07,C08,C09 tier=quick timeout=1200 mem=8
 // @enc rounded_75point
 // @sym t0 any tick below 2^50 with valid sub-second field; t1 = t0 + gap, gap up to 0x7FFF s + 1 s
 // @bound t0 < 2^50 ticks, 0 <= t1 - t0 <= 0x8000_0000 ticks
@@ -172,7 +172,7 @@ fn a_rounded_75point() {
     kani::cover!(t1 - t0 >= 0x8000 && (r & 0xFFFF) == 0 && (t1 & 0xFFFF) != 0, "rounded up to a whole second");
 }
 
-// @verif prop=C10 tier=quick timeout=600 mem=6 unwind=3
+// @verif prop=C10 tier=quick timeout=1200 mem=6 unwind=3
 // @enc Timers::free_slot Timers::alloc_slot
 // @sym an arbitrary constructed VarSlot (any generation, Max or Min, any expiry) in a 1-slot table: inductive over history
 // @bound one free + one re-allocation; table of 1 slot
@@ -876,19 +876,19 @@ macro_rules! ind_harness {
 }
 
 // ---- base cases
-// @verif prop=C07,C08,C09,C10,C19 tier=quick timeout=600 mem=10 unwind=5 unwindset=::add\.0$:2,::add\.1$:1
+// @verif prop=C07,C08,C09,C10,C19 tier=quick timeout=1200 mem=10 unwind=5 unwindset=::add\.0$:2,::add\.1$:1
 // @enc Timers::add Timers::add_max Timers::alloc_slot Timers::next_expiry Time::new_ceil Time::instant WrapTime::time TimerKey::cmp
 // @sym current tick N: any valid tick < 2^49; sequence counter any u32; expiry any instant t0+(0..2^33 s, any ns) (past, future, beyond 32767 s)
 // @bound one add into an empty timer set (inductive base); map model capacity 2
 // @assume BTreeMap modelled by harness/model/vmap.rs; state constructed at tick N
 ind_harness!(i_base_add_fixed, ind_base_add(Kind::Fixed));
-// @verif prop=C07,C08,C09,C10 tier=quick timeout=600 mem=10 unwind=5
+// @verif prop=C07,C08,C09,C10 tier=quick timeout=1200 mem=10 unwind=5
 // @enc Timers::add_max Timers::alloc_slot Timers::next_expiry Time::new_ceil
 // @sym as i_base_add_fixed
 // @bound one add_max into an empty timer set (inductive base)
 // @assume BTreeMap modelled by harness/model/vmap.rs; state constructed at tick N
 ind_harness!(i_base_add_max, ind_base_add(Kind::Max));
-// @verif prop=C07,C08,C09,C10 tier=quick timeout=600 mem=10 unwind=5
+// @verif prop=C07,C08,C09,C10 tier=quick timeout=1200 mem=10 unwind=5
 // @enc Timers::add_min rounded_75point Timers::alloc_slot Timers::next_expiry Time::new_ceil
 // @sym as i_base_add_fixed
 // @bound one add_min into an empty timer set (inductive base)
@@ -896,21 +896,21 @@ ind_harness!(i_base_add_max, ind_base_add(Kind::Max));
 ind_harness!(i_base_add_min, ind_base_add(Kind::Min));
 
 // ---- advance steps (quick: jumps up to 70000 s = three 0x7FFF s internal steps)
-// @verif prop=C07,C08,C09,C10,C19 tier=quick timeout=1500 mem=14 unwind=5 unwindset=::advance\.1$:5,::advance\.0$:3
+// @verif prop=C07,C08,C09,C10,C19 tier=quick timeout=2400 mem=14 unwind=5 unwindset=::advance\.1$:5,::advance\.0$:3
 // @enc Timers::advance Timers::next_expiry Time::new_floor Time::add_secs WrapTime::cmp TimerKey::cmp (queue sink stubbed)
 // @sym any pre-state satisfying INV(fixed): tick N < 2^50, entry tick C in (N, N+0x7FFF s), E, S1, slot id any >= 2^31; target any instant up to 70000 s ahead of N (or earlier)
 // @bound one advance of <= 70000 s (<= 3 internal 0x7FFF s steps + exit) from an arbitrary INV state: inductive step, histories of any length
 // @stub FnOnceQueue::push_box -> callback invoked at once (queue is a sink here; FIFO is C01/C17)
 // @assume BTreeMap modelled by harness/model/vmap.rs (total-order precondition asserted); single pending timer
 ind_harness!(i_adv_fixed, ind_advance(Kind::Fixed, 70000));
-// @verif prop=C07,C08,C09,C10 tier=quick timeout=1500 mem=14 unwind=5 unwindset=::advance\.1$:5,::advance\.0$:3
+// @verif prop=C07,C08,C09,C10 tier=quick timeout=2400 mem=14 unwind=5 unwindset=::advance\.1$:5,::advance\.0$:3
 // @enc Timers::advance (Max branch) Timers::free_slot Timers::next_expiry
 // @sym any pre-state satisfying INV(max): N, C in (N, N+0x7FFF s], E any (also > 18 h ahead), S1, generation any != 0; target up to 70000 s ahead
 // @bound one advance of <= 70000 s from an arbitrary INV state (inductive step)
 // @stub FnOnceQueue::push_box -> callback invoked at once
 // @assume BTreeMap modelled by harness/model/vmap.rs; single pending timer
 ind_harness!(i_adv_max, ind_advance(Kind::Max, 70000));
-// @verif prop=C07,C08,C09,C10 tier=quick timeout=1500 mem=14 unwind=5 unwindset=::advance\.1$:5,::advance\.0$:3
+// @verif prop=C07,C08,C09,C10 tier=quick timeout=2400 mem=14 unwind=5 unwindset=::advance\.1$:5,::advance\.0$:3
 // @enc Timers::advance (Min branch) rounded_75point Timers::free_slot Timers::next_expiry
 // @sym any pre-state satisfying INV(min); target up to 70000 s ahead
 // @bound one advance of <= 70000 s from an arbitrary INV state (inductive step)
@@ -919,49 +919,49 @@ ind_harness!(i_adv_max, ind_advance(Kind::Max, 70000));
 ind_harness!(i_adv_min, ind_advance(Kind::Min, 70000));
 
 // ---- update / delete / stale-key steps
-// @verif prop=C07,C08,C09,C10 tier=quick timeout=600 mem=10 unwind=5
+// @verif prop=C07,C08,C09,C10 tier=quick timeout=1200 mem=10 unwind=5
 // @enc Timers::mod_max
 // @sym any INV(max) pre-state; new expiry any instant t0+(0..2^33 s)
 // @bound one update from an arbitrary INV state (inductive step)
 // @assume BTreeMap modelled by harness/model/vmap.rs
 ind_harness!(i_upd_max, ind_update(Kind::Max));
-// @verif prop=C07,C08,C09,C10 tier=quick timeout=600 mem=10 unwind=5
+// @verif prop=C07,C08,C09,C10 tier=quick timeout=1200 mem=10 unwind=5
 // @enc Timers::mod_min rounded_75point
 // @sym any INV(min) pre-state; new expiry any instant t0+(0..2^33 s) (before, at and after the current time)
 // @bound one update from an arbitrary INV state (inductive step)
 // @assume BTreeMap modelled by harness/model/vmap.rs
 ind_harness!(i_upd_min, ind_update(Kind::Min));
-// @verif prop=C09,C10 tier=quick timeout=600 mem=10 unwind=5
+// @verif prop=C09,C10 tier=quick timeout=1200 mem=10 unwind=5
 // @enc Timers::del Timers::free_slot
 // @sym any INV(fixed) pre-state
 // @bound one delete (inductive step)
 // @assume BTreeMap modelled by harness/model/vmap.rs
 ind_harness!(i_del_fixed, ind_delete(Kind::Fixed));
-// @verif prop=C09,C10 tier=quick timeout=600 mem=10 unwind=5
+// @verif prop=C09,C10 tier=quick timeout=1200 mem=10 unwind=5
 // @enc Timers::del_max Timers::del Timers::free_slot Timers::mod_max Timers::max_is_active
 // @sym any INV(max) pre-state; deleted through the Max key or the long-fixed key
 // @bound one delete (inductive step)
 // @assume BTreeMap modelled by harness/model/vmap.rs
 ind_harness!(i_del_max, ind_delete(Kind::Max));
-// @verif prop=C09,C10 tier=quick timeout=600 mem=10 unwind=5
+// @verif prop=C09,C10 tier=quick timeout=1200 mem=10 unwind=5
 // @enc Timers::del_min Timers::free_slot Timers::mod_min Timers::min_is_active
 // @sym any INV(min) pre-state
 // @bound one delete (inductive step)
 // @assume BTreeMap modelled by harness/model/vmap.rs
 ind_harness!(i_del_min, ind_delete(Kind::Min));
-// @verif prop=C10 tier=quick timeout=600 mem=10 unwind=5
+// @verif prop=C10 tier=quick timeout=1200 mem=10 unwind=5
 // @enc Timers::del Timers::del_max Timers::del_min Timers::mod_max Timers::mod_min Timers::max_is_active Timers::min_is_active
 // @sym any INV(fixed) pre-state; any key (slot, generation/time) that does not name the pending timer, and the Default keys; any of the 7 key operations
 // @bound one operation (inductive step)
 // @assume BTreeMap modelled by harness/model/vmap.rs
 ind_harness!(i_stale_fixed, ind_stale_key(Kind::Fixed));
-// @verif prop=C10 tier=quick timeout=600 mem=10 unwind=5
+// @verif prop=C10 tier=quick timeout=1200 mem=10 unwind=5
 // @enc as i_stale_fixed
 // @sym any INV(max) pre-state; any non-naming key; any key operation
 // @bound one operation (inductive step)
 // @assume BTreeMap modelled by harness/model/vmap.rs
 ind_harness!(i_stale_max, ind_stale_key(Kind::Max));
-// @verif prop=C10 tier=quick timeout=600 mem=10 unwind=5
+// @verif prop=C10 tier=quick timeout=1200 mem=10 unwind=5
 // @enc as i_stale_fixed
 // @sym any INV(min) pre-state; any non-naming key; any key operation
 // @bound one operation (inductive step)
@@ -995,7 +995,7 @@ fn ind_fixed_key_fresh() {
     kani::cover!(w.t.seq < 5, "sequence counter wrapped");
     std::mem::forget(w);
 }
-// @verif prop=C10 tier=quick timeout=600 mem=10 unwind=5 unwindset=::add\.0$:2,::add\.1$:1
+// @verif prop=C10 tier=quick timeout=1200 mem=10 unwind=5 unwindset=::add\.0$:2,::add\.1$:1
 // @enc Timers::add Timers::del
 // @sym tick N any; sequence counter any u32 (including the wrap); two expiry instants any (same tick or not), both < 32767 s ahead
 // @bound add, delete, add, stale delete (inductive in the sequence counter)
